@@ -4,8 +4,12 @@
 (*   a = "Cell": toks (the generator's token list), f (the text given to   *)
 (*       Cell::set_formula), own (sheet name of the second identity path), *)
 (*       items: "move" (Cell at (fc,fr), set_coordinate((tc,tr)), formula  *)
-(*       read back) and "far" (Worksheet::insert_new_row(p, 1) far below   *)
-(*       every reference), each with outcome and the text read back.       *)
+(*       read back), "far" (Worksheet::insert_new_row(p, 1) far below      *)
+(*       every reference) and "other" (the formula on sheet own of a       *)
+(*       three-sheet workbook, Spreadsheet::insert_new_row / .._column /   *)
+(*       remove_.. applied to ANOTHER sheet at or before the formula's     *)
+(*       references, none of which belongs to that sheet), each with       *)
+(*       outcome and the text read back.                                   *)
 (*   a = "Fatal": the case did not answer (outcome "timeout") or killed    *)
 (*       the driver ("crash").                                             *)
 (* Intended: the text read back is an acceptable rendering of the          *)
@@ -21,11 +25,22 @@ KFId == [brk |-> "C09-KF1", trail |-> "C09-KF2", apos |-> "C09-KF3", dq |-> "C09
          uplus |-> "C09-KF6", colonly |-> "C09-KF7", rowonly |-> "C09-KF8", hi |-> "C09-KF9"]
 Enabled == {m \in DOMAIN KFId : KFOn(KFId[m])}
 
-OpOf(e, it) == IF it.op = "move" THEN [k |-> "move", dc |-> it.tc - it.fc, dr |-> it.tr - it.fr]
-               ELSE [k |-> "ins", own |-> e.own, edited |-> e.own, ax |-> "row", p |-> it.p, n |-> 1]
+OpOf(e, it) ==
+  CASE it.op = "move"  -> [k |-> "move", dc |-> it.tc - it.fc, dr |-> it.tr - it.fr]
+    [] it.op = "far"   -> [k |-> "ins", own |-> e.own, edited |-> e.own, ax |-> "row", p |-> it.p, n |-> 1]
+    [] it.op = "other" -> [k |-> IF it.edit = "Insert" THEN "ins" ELSE "rem", own |-> e.own, edited |-> it.edited,
+                           ax |-> it.ax, p |-> it.p, n |-> it.n]
+(* third identity path: a workbook-level edit of ANOTHER sheet, to which no reference of the formula belongs *)
+ConcernsNone(e, it) ==
+  /\ it.edited # e.own /\ it.third # it.edited /\ it.third # e.own
+  /\ \A i \in DOMAIN e.toks : e.toks[i].k = "ref" =>
+        (Cd!Concat(e.toks[i].qc) # it.edited /\ Dbl(e.toks[i].qc, "'") # it.edited)
 InGridRC(c, r) == c >= 1 /\ c <= MaxCol /\ r >= 1 /\ r <= MaxRow
 ItemGenOk(e, it) ==
   IF it.op = "move" THEN InGridRC(it.fc, it.fr) /\ InGridRC(it.tc, it.tr)
+  ELSE IF it.op = "other"
+  THEN /\ InGridRC(it.c, it.r) /\ ConcernsNone(e, it) /\ it.edit \in {"Insert", "Remove"} /\ it.ax \in Axes
+       /\ it.p >= 1 /\ it.n >= 1 /\ it.p + it.n - 1 <= Lines(it.ax)
   ELSE /\ InGridRC(it.c, it.r) /\ it.p > it.r /\ it.p <= MaxRow
        /\ it.p > FExtent(e.toks, e.own, e.own, "row")           \* the insert concerns no reference
 GenOk(e) == /\ InClass(e.toks)
